@@ -1,4 +1,4 @@
-import Secp.Proofs.DriversFront
+import Secp.Proofs.FrontEcdh
 import Secp.Gen.Drivers
 import Secp.Proofs.Ecdh
 import Secp.Props.C03
@@ -61,6 +61,6 @@ theorem generateSharedSecret_regenerated (d : Nat) (Q : Nat × Nat) :
 /-- `PrivateKey.ECDH` = `GenerateSharedSecret`, never an error -/
 theorem ecdh_front (d : Nat) (Q : Nat × Nat) :
     Secp.Gen.Drivers.ecdhMethod d Q = DR.ok (Secp.Gen.Drivers.generateSharedSecret d Q) :=
-  Secp.Proofs.DriversFront.ecdh_front d Q
+  Secp.Proofs.FrontEcdh.ecdh_front d Q
 
 end Secp.Props.C14
